@@ -76,6 +76,8 @@ def run_suite(res, prop, tier, seed, n_quick, n_thorough, n_req=1, force=None, o
         cmd = S.model_cmd(sc, sk)
         parts = out.split(' ;; ')
         results = [S.parse_result(x) for x in parts]
+        if any(r['ret'] == 'hang' for r in results):
+            res.notes['requests_that_did_not_return'] = res.notes.get('requests_that_did_not_return', 0) + 1
         if oracle is not None:
             for idx_, (rq, r) in enumerate(zip(sc['reqs'], results)):
                 sc['_idx'], sc['_results'] = idx_, results
@@ -98,6 +100,9 @@ def run_suite(res, prop, tier, seed, n_quick, n_thorough, n_req=1, force=None, o
         kinds = 'answered' if any(p[0] == 'good' for p in sc['plan']) else 'faults-only'
         cases.append(Case(comp, cmd, proj(out), desc, domain=False, kind=f'{sc["reqs"][0].op}/{kinds}',
                           nontrivial=any(len(r['tx']) > 0 for r in results), proj=proj))
+        if res.notes.get('requests_that_did_not_return', 0) >= 6:
+            res.notes['stopped_early'] = 'six requests did not return; remaining scenarios skipped'
+            break
     return drop_ties(res, cases)
 
 
